@@ -62,10 +62,11 @@ def build_librime(flavour):
 
 
 FLAV_FLAGS = {
-    "san": ["-O1", "-g", "-fno-omit-frame-pointer", "-fsanitize=address,undefined", "-fno-sanitize-recover=all"],
-    "tsan": ["-O1", "-g", "-fno-omit-frame-pointer", "-fsanitize=thread"],
-    "plain": ["-O1", "-g"],
-    "cov": ["-O0", "-g"],          # the library is instrumented (gcov), the harness need not be
+    # NDEBUG like the library (tools/build_librime.sh): inline code of the headers must be the same on both sides
+    "san": ["-O1", "-g", "-DNDEBUG", "-fno-omit-frame-pointer", "-fsanitize=address,undefined", "-fno-sanitize-recover=all"],
+    "tsan": ["-O1", "-g", "-DNDEBUG", "-fno-omit-frame-pointer", "-fsanitize=thread"],
+    "plain": ["-O1", "-g", "-DNDEBUG"],
+    "cov": ["-O0", "-g", "-DNDEBUG"],          # the library is instrumented (gcov), the harness need not be
 }
 
 
